@@ -17,6 +17,8 @@ def RepSuccess : Nat := 0
 def RepFailure : Nat := 1
 def RepCmdNotSupp : Nat := 7
 def RepAddrNotSupp : Nat := 8
+def VirtualDNSIP : String := "10.0.0.1"
+def DefaultDNSServer : String := "119.29.29.29"
 end socks5
 
 namespace adapter
@@ -41,6 +43,14 @@ def Listener_Handshake : List String := ["io.ReadFull", "io.ReadFull", "conn.Wri
 def Listener_Handshake_lits : List Nat := [2, 0, 0, 1, 0, 4, 0, 0, 1, 3, 4, 1, 0, 16, 2]
 def Listener_SendError : List String := ["conn.Write"]
 def Listener_SendError_lits : List Nat := [0, 0, 0, 0, 0, 0, 0]
+def Listener_SendSuccess : List String := ["conn.Write"]
+def Listener_SendSuccess_lits : List Nat := [0, 0, 0, 0, 0, 0, 0]
+def Listener_SendSuccessWithBind : List String := ["bindAddr.IP.To4", "conn.Write"]
+def Listener_SendSuccessWithBind_lits : List Nat := [0, 0, 1, 2, 3, 8, 255]
+def Listener_handleConnect : List String := ["l.SendError", "conn.Close", "l.SendError", "conn.Close", "l.SendSuccess", "tunnelCreator.CreateSOCKS5Tunnel", "l.SendError", "conn.Close"]
+def Listener_handleConnect_lits : List Nat := [853]
+def Listener_handleConnection : List String := ["l.Handshake", "conn.Close", "l.handleConnect", "l.handleUDPAssociate", "l.SendError", "conn.Close"]
+def Listener_handleUDPAssociate : List String := ["l.SendError", "conn.Close", "udpRelayCreator.CreateUDPRelay", "l.SendError", "conn.Close", "l.SendSuccessWithBind"]
 def SocksAdapter_handleHandshake : List String := ["io.ReadFull", "io.ReadFull", "conn.Write", "s.handlePasswordAuth"]
 def SocksAdapter_handleHandshake_lits : List Nat := [2, 0, 1]
 def SocksAdapter_handlePasswordAuth : List String := ["io.ReadFull", "io.ReadFull", "io.ReadFull", "io.ReadFull", "conn.Write"]
@@ -52,10 +62,12 @@ def SocksAdapter_sendReply : List String := ["net.ParseIP", "ip.To4", "ip.To16",
 def SocksAdapter_sendReply_lits : List Nat := [0, 22, 0, 2]
 def UDPRelay_buildUDPHeader : List String := ["net.ParseIP", "ip.To4", "copy", "binary.BigEndian.PutUint16", "copy", "ip.To16", "copy", "binary.BigEndian.PutUint16", "copy", "copy", "binary.BigEndian.PutUint16", "copy"]
 def UDPRelay_buildUDPHeader_lits : List Nat := [10, 0, 0, 1, 0, 2, 0, 3, 4, 8, 8, 10, 10, 22, 0, 0, 1, 0, 2, 0, 3, 4, 20, 20, 22, 22, 5, 2, 0, 0, 1, 0, 2, 0, 3, 4, 5, 5, 5, 5, 2]
+def UDPRelay_handleDNSQuery : List String := ["dnsHandler.QueryDNS", "r.buildUDPHeader", "udpConn.WriteToUDP"]
 def UDPRelay_handlePacket : List String := ["r.parseUDPHeader", "r.handleDNSQuery", "r.getOrCreateSession", "tunnel.SendPacket"]
 def UDPRelay_parseUDPHeader : List String := ["len", "len", "net.IP", "len", "len", "len", "net.IP", "binary.BigEndian.Uint16"]
 def UDPRelay_parseUDPHeader_lits : List Nat := [4, 0, 2, 0, 0, 2, 3, 10, 0, 4, 8, 10, 5, 0, 4, 5, 2, 0, 5, 5, 5, 2, 22, 0, 4, 20, 22, 0, 2]
 def UDPRelay_readLoop : List String := ["make", "udpConn.ReadFromUDP", "make", "copy", "r.handlePacket"]
+def udpSession_receiveLoop : List String := ["tunnel.ReceivePacket", "relay.buildUDPHeader", "udpConn.WriteToUDP"]
 end Skel
 
 end Gen
